@@ -87,8 +87,10 @@ for _p, _t in {
     CHECKS[_p]["text"] = _t + CHECKS[_p]["text"]
 CHECKS["C04"] = {"category": "proof", "technique": "contract-based deductive verification: VCs from the real AST, z3 (nonlinear mixed int/real arithmetic)",
    "text": "FixedWidthBinning._force_bin_existence_single is verified for an unbounded (symbolic) bin count, width, origin, shift and value: value covered, grid and old "
-           "bins kept, minimal growth, returned shift, caches invalidated -- every path, all inputs (reals). The adaptive arms of fill are additionally checked bounded "
-           "(initial count <= 2, growth <= 4 bins per call) for 'contents stay on their interval' and 'nothing is lost'.",
+           "bins kept, minimal growth, returned shift, caches invalidated -- every path, all inputs (reals). Histogram1D.fill on an adaptive histogram with ANY number (>= 1) of bins and ANY "
+           "amount of growth is verified end to end (arrays of symbolic extent): same grid, the value lands in the reported bin, every old content and squared error stays on its interval "
+           "(moved by the bins added on the left), growth on one side only and no further than the bin of the value, missed values untouched. The empty histogram, fill_n and '+' of adaptive "
+           "histograms are checked bounded (initial count <= 2, growth <= 4 bins per call).",
    "note": _NOTE + "Mode R for the proofs. The rounding behaviour of floor/ceil on binary64 (e.g. width 0.1, value 1.7) is covered only by the decimal-literal cross-check on the real code (bounded stand-in, finding F6 fixed), not by proof."}
 CHECKS["C14"]["text"] += " Statistics clauses of Histogram1D.fill / fill_n / + / * / / / copy are attached to those functions (bounded)."
 NOT_APPLICABLE = {}
